@@ -4,6 +4,7 @@ import (
 	"encoding/json"
 	"path/filepath"
 	"sort"
+	"strings"
 
 	"pgregory.net/rapid"
 
@@ -387,12 +388,22 @@ func (p *Profile) Draw(t *rapid.T, s *Session) cs.Op {
 		}
 		if p.BadIds && rapid.IntRange(0, 9).Draw(t, "mismatch") == 0 {
 			d["_id"] = p.freeId(t, c)
+			if !id.Sym && rapid.Bool().Draw(t, "mismatch-respell") && strings.ToUpper(id.Lit) != id.Lit {
+				d["_id"] = strings.ToUpper(id.Lit) // the same UUID spelled in upper case is a different _id
+			}
 		}
 		return cs.Op{Kind: kind, Coll: coll, Id: id, Docs: []cs.Doc{d}}
 	case "updatebyid":
 		coll := p.liveColl(t, s)
 		c := s.M.Colls[coll]
-		return cs.Op{Kind: kind, Coll: coll, Id: p.someId(t, s, c, 10), Upd: p.updater(t, s, false)}
+		op := cs.Op{Kind: kind, Coll: coll, Id: p.someId(t, s, c, 10), Upd: p.updater(t, s, false)}
+		if p.IdRewrite && !op.Id.Sym && rapid.IntRange(0, 5).Draw(t, "respell-own-id") == 0 {
+			// rewrite _id to another spelling of the very same UUID (upper case)
+			if up := strings.ToUpper(op.Id.Lit); up != op.Id.Lit {
+				op.Upd = &cs.Updater{Kind: rapid.SampledFrom([]string{"set", "inplace"}).Draw(t, "respell-kind"), Field: "_id", Value: cs.V{X: up}}
+			}
+		}
+		return op
 	case "deletebyid":
 		coll := p.liveColl(t, s)
 		c := s.M.Colls[coll]
